@@ -1,33 +1,55 @@
-import Ucan.Gen.ChainAllowed
-/-! Regenerated-code tie for the ORDER of the stages of `executionAllowed` (anchored by C01, C03, C04, C05), stated on
-the regenerated functions alone, so that it depends on no other tie: the proofs are loaded first and a loading error
-ends the check; then `verifyProofs`, then `verifyTimeBound` — which is `verifyTimeBoundAt` at the instant `now` —, then
-`verifyArgs` on the delegations that were loaded and the arguments that were handed in; the first failing stage
-decides. `loadProofs` and `verifyArgs` are parameters: the statement holds whatever they do. -/
+import Ucan.Gen.ChainShell
+/-! Regenerated-code tie for the ORDER of the stages of `executionAllowed` (anchored by C01, C03, C04, C05), stated on the
+body of that one function alone: every method it calls is a parameter of this translation (`ChainShell`), so the theorem
+depends on no other function of the library and on no other tie. The proofs are loaded first and a loading error ends
+the check; then `verifyProofs`, then `verifyTimeBound`, then `verifyArgs`, each on the delegations that were loaded (and
+the arguments that were handed in); the first failing stage decides; nil only when all four return nil. What the
+stages themselves do is the subject of `ChainProofs`, `ChainTime` and `ChainArgs`; `ChainAllowed` composes them. -/
 namespace Ucan.Tie
 open Ucan Ucan.GoM
 
-variable {D C L A : Type} [DecidableEq D]
+variable {D C S L A : Type} [DecidableEq D]
 
-theorem Inv_executionAllowed_order (now : Int)
-    (extLoad : Gen.InvTok D C → L → GoM (List (Gen.DlgTok D)))
-    (extArgs : Gen.InvTok D C → List (Gen.DlgTok D) → A → GoM Unit)
+theorem Inv_executionAllowed_order
+    (extLoad : Gen.InvTok D C → L → GoM (List (Gen.DlgTok D S)))
+    (extProofs extTime : Gen.InvTok D C → List (Gen.DlgTok D S) → GoM Unit)
+    (extArgs : Gen.InvTok D C → List (Gen.DlgTok D S) → A → GoM Unit)
     (g : Gen.InvTok D C) (loader : L) (a : A) :
-    Gen.Inv_executionAllowed now extLoad extArgs g loader a =
+    Gen.Inv_executionAllowed_shell extLoad extProofs extTime extArgs g loader a =
       (extLoad g loader >>= fun ds =>
-        Gen.Inv_verifyProofs g ds >>= fun _ =>
-        Gen.Inv_verifyTimeBoundAt g now ds >>= fun _ =>
+        extProofs g ds >>= fun _ =>
+        extTime g ds >>= fun _ =>
         extArgs g ds a) := by
-  unfold Gen.Inv_executionAllowed Gen.Inv_verifyTimeBound
+  unfold Gen.Inv_executionAllowed_shell
   cases extLoad g loader with
   | error e => rfl
   | ok ds =>
     simp only [bind, Except.bind, pure, Except.pure]
-    cases Gen.Inv_verifyProofs g ds with
+    cases extProofs g ds with
     | error e => rfl
     | ok u =>
-      cases Gen.Inv_verifyTimeBoundAt g now ds with
+      cases extTime g ds with
       | error e => rfl
       | ok u => cases extArgs g ds a <;> rfl
+
+/-- nil exactly when the proofs load and all three stages return nil on them -/
+theorem Inv_executionAllowed_ok_iff
+    (extLoad : Gen.InvTok D C → L → GoM (List (Gen.DlgTok D S)))
+    (extProofs extTime : Gen.InvTok D C → List (Gen.DlgTok D S) → GoM Unit)
+    (extArgs : Gen.InvTok D C → List (Gen.DlgTok D S) → A → GoM Unit)
+    (g : Gen.InvTok D C) (loader : L) (a : A) :
+    Gen.Inv_executionAllowed_shell extLoad extProofs extTime extArgs g loader a = .ok () ↔
+      ∃ ds, extLoad g loader = .ok ds ∧ extProofs g ds = .ok () ∧ extTime g ds = .ok () ∧ extArgs g ds a = .ok () := by
+  rw [Inv_executionAllowed_order]
+  cases hl : extLoad g loader with
+  | error e => simp [bind, Except.bind]
+  | ok ds =>
+    simp only [bind, Except.bind]
+    cases h1 : extProofs g ds with
+    | error e => simp [h1]
+    | ok u =>
+      cases h2 : extTime g ds with
+      | error e => simp [h1, h2]
+      | ok u => cases h3 : extArgs g ds a <;> simp [h1, h2, h3]
 
 end Ucan.Tie
